@@ -18,6 +18,7 @@
   (fuel decreases exactly when a Go call descends into a nested value; adequacy: `Val.depth`).
   Core Lean only.
 -/
+import GormModel.Core.Facts
 namespace Gorm.Bind
 
 /-- one piece of SQL text.  `ph n` = what `Dialector.BindVarTo` wrote when `len(stmt.Vars) = n`. -/
@@ -110,18 +111,23 @@ def assignments : List (Val β) → List (Val β) → List (Val β)
   | c :: cs, v :: vs => .assign c v :: assignments cs vs
   | _, _ => []
 
+/-- the values `reflect.ValueOf(v)` sees as Slice/Array in Expr.Build (a driver.Valuer is tested first and never expanded):
+    the elements `rv.Index(i).Interface()` -/
+def expandElems : Val β → Option (List (Val β))
+  | .list _ vs => some vs
+  | .ilist vs => some vs
+  | .bytes _ bs => some (bs.map Val.scalar)
+  -- clause.Set is `[]Assignment`: reflect sees a slice
+  | .clauseI _ (.set cols vals) => some (assignments cols vals)
+  | _ => none
+
 /-- clause/expression.go Expr.Build / NamedExpr.Build: what one `?` does with `Vars[idx]`.
     `expand` = `afterParenthesis || WithoutParentheses`. -/
 def slot (av : Val β → St β → St β) (expand : Bool) (v : Val β) (st : St β) : St β :=
   if expand then
-    match v with
-    | .dvaluer _ _ => av v st
-    | .list _ vs => if vs.isEmpty then av .nil st else commaSep av vs st
-    | .ilist vs => if vs.isEmpty then av .nil st else commaSep av vs st
-    | .bytes _ bs => if bs.isEmpty then av .nil st else commaSep av (bs.map Val.scalar) st
-    -- clause.Set is `[]Assignment`: reflect sees a slice
-    | .clauseI _ (.set cols vals) => if cols.isEmpty then av .nil st else commaSep av (assignments cols vals) st
-    | _ => av v st
+    match expandElems v with
+    | some es => if es.isEmpty then av .nil st else commaSep av es st
+    | none => av v st
   else av v st
 
 /-- clause/expression.go Expr.Build, main loop (`rest` = `expr.Vars[idx:]`, `ap` = afterParenthesis)
@@ -215,6 +221,12 @@ def eqListElems : Val β → Option (List (Val β))
   | .ilist vs => some vs
   | _ => none
 
+/-- clause/expression.go IN.Build `case 1: if _, ok := in.Values[0].([]interface{}); !ok { … break }` -/
+def innSingle : List (Val β) → Option (Val β)
+  | [.ilist _] => none
+  | [x] => some x
+  | _ => none
+
 /-- strings.Contains on byte lists -/
 def containsSub (s sub : List Char) : Bool :=
   match s with
@@ -249,13 +261,17 @@ def setLoop (wq av : Val β → St β → St β) : Bool → List (Val β) → Li
     setLoop wq av false cs vs (av v ((wq c st1).writeByte '='))
   | _, _, _, st => st
 
+/-- one element of `Values.Values` (a `[]interface{}` row) -/
+def rowCells : Val β → List (Val β)
+  | .ilist cs => cs
+  | other => [other]
+
 /-- clause/values.go Values.Build: the rows loop -/
 def rowsLoop (av : Val β → St β → St β) : Bool → List (Val β) → St β → St β
   | _, [], st => st
   | first, r :: rs, st =>
     let st1 := (if first then st else st.writeByte ',').writeByte '('
-    let cells := match r with | .ilist cs => cs | other => [other]
-    rowsLoop av false rs ((commaSep av cells st1).writeByte ')')
+    rowsLoop av false rs ((commaSep av (rowCells r) st1).writeByte ')')
 
 /-- statement.go Statement.Build + clause.go Clause.Build over the clauses that are present -/
 def clausesLoop (bx : Val β → St β → St β) : Bool → List (List Char) → List (Val β) → St β → St β
@@ -282,6 +298,21 @@ def retemplate (d : Dialect) : Nat → Nat → List Char → List Char
   | _, 0, s => s
   | i, k+1, s => retemplate d (i+1) k (replaceFirst s (phText d i) ['?'])
 
+/-- statement.go `Statement.QuoteTo` (= WriteQuoted) for clause.Column / clause.Table / clause.Expr;
+    a plain string column is `column "" name "" false`.  Other dynamic types (`fmt.Sprint(field)` quoted as an
+    identifier) are outside the model. -/
+def quoteTo (av : Val β → St β → St β) (c : Val β) (s : St β) : St β :=
+  match c with
+  | .column t nm al raw =>
+    let s1 := if t.isEmpty then s else (writeId raw t s).writeByte '.'
+    let s2 := writeId raw nm s1
+    if al.isEmpty then s2 else writeId raw al (s2.writeStr " AS ")
+  | .table nm al raw =>
+    let s1 := writeId raw nm s
+    if al.isEmpty then s1 else writeId raw al (s1.writeByte ' ')
+  | .expr sql args wop => exprBuild av sql args wop s
+  | _ => { s with unsupported := true }
+
 end builders
 
 /-- statement.go `Statement.AddVar` for ONE value (the variadic loop is `commaSep (addVar d n)`),
@@ -290,18 +321,7 @@ def addVar {β : Type} (d : Dialect) : Nat → Val β → St β → St β
   | 0, _, st => { st with oof := true }
   | n+1, v, st =>
     let av := addVar d n
-    -- statement.go QuoteTo
-    let wq : Val β → St β → St β := fun c s =>
-      match c with
-      | .column t nm al raw =>
-        let s1 := if t.isEmpty then s else (writeId raw t s).writeByte '.'
-        let s2 := writeId raw nm s1
-        if al.isEmpty then s2 else writeId raw al (s2.writeStr " AS ")
-      | .table nm al raw =>
-        let s1 := writeId raw nm s
-        if al.isEmpty then s1 else writeId raw al (s1.writeByte ' ')
-      | .expr sql args wop => exprBuild av sql args wop s
-      | _ => { s with unsupported := true }
+    let wq := quoteTo av
     match v with
     -- case sql.NamedArg: append, NO placeholder
     | .named _ x => st.appendVar x
@@ -329,13 +349,10 @@ def addVar {β : Type} (d : Dialect) : Nat → Val β → St β → St β
       | _ => av x (s1.writeStr (cmpText op))
     | .inn neg col vs =>
       let s1 := wq col st
-      (match vs with
-       | [] => s1.writeStr (if neg then " IS NOT NULL" else " IN (NULL)")
-       | [x] =>
-         (match x with
-          | .ilist _ => ((commaSep av vs (s1.writeStr (if neg then " NOT IN (" else " IN ("))).writeByte ')')
-          | _ => av x (s1.writeStr (if neg then " <> " else " = ")))
-       | _ => ((commaSep av vs (s1.writeStr (if neg then " NOT IN (" else " IN ("))).writeByte ')'))
+      if vs.isEmpty then s1.writeStr (if neg then " IS NOT NULL" else " IN (NULL)")
+      else match innSingle vs with
+        | some x => av x (s1.writeStr (if neg then " <> " else " = "))
+        | none => ((commaSep av vs (s1.writeStr (if neg then " NOT IN (" else " IN ("))).writeByte ')')
     | .values cols rows =>
       if cols.isEmpty then st.writeStr "DEFAULT VALUES"
       else rowsLoop av true rows (((commaSep wq cols (st.writeByte '(')).writeByte ')').writeStr " VALUES ")
@@ -379,6 +396,23 @@ def addVar {β : Type} (d : Dialect) : Nat → Val β → St β → St β
     | .nmap .. => st.bind v
     | .strct .. => st.bind v
     | .assign .. => st.bind v
+
+/-- the arms of the type switch in `Statement.AddVar` as THIS model transcribes them (same record as the
+    regenerated `Gen.addVarArms`; `C01_arms_model` demands equality, so an edited arm breaks a proof obligation).
+    appendsVar/bindVarTo count the syntactic occurrences in the arm: the default arm has two (byte slice via
+    reflect, plain value); the *DB arm calls BindVarTo once, into a scratch builder, to learn the bindvar text. -/
+def modelArms : List AddVarArm := [
+  { types := ["sql.NamedArg"], appendsVar := 1, bindVarTo := 0, recursesAddVar := 0, writesQuoted := 0, buildsExpr := 0, writesString := 0 },
+  { types := ["clause.Column", "clause.Table"], appendsVar := 0, bindVarTo := 0, recursesAddVar := 0, writesQuoted := 1, buildsExpr := 0, writesString := 0 },
+  { types := ["Valuer"], appendsVar := 0, bindVarTo := 0, recursesAddVar := 2, writesQuoted := 0, buildsExpr := 0, writesString := 0 },
+  { types := ["clause.Interface"], appendsVar := 0, bindVarTo := 0, recursesAddVar := 0, writesQuoted := 0, buildsExpr := 1, writesString := 0 },
+  { types := ["clause.Expression"], appendsVar := 0, bindVarTo := 0, recursesAddVar := 0, writesQuoted := 0, buildsExpr := 1, writesString := 0 },
+  { types := ["driver.Valuer"], appendsVar := 1, bindVarTo := 1, recursesAddVar := 0, writesQuoted := 0, buildsExpr := 0, writesString := 0 },
+  { types := ["[]byte"], appendsVar := 1, bindVarTo := 1, recursesAddVar := 0, writesQuoted := 0, buildsExpr := 0, writesString := 0 },
+  { types := ["[]interface{}"], appendsVar := 0, bindVarTo := 0, recursesAddVar := 1, writesQuoted := 0, buildsExpr := 0, writesString := 1 },
+  { types := ["*DB"], appendsVar := 0, bindVarTo := 1, recursesAddVar := 0, writesQuoted := 0, buildsExpr := 0, writesString := 1 },
+  { types := ["default"], appendsVar := 2, bindVarTo := 2, recursesAddVar := 1, writesQuoted := 0, buildsExpr := 0, writesString := 1 }
+]
 
 /-! ### depth (fuel adequacy), map (naturality), flatten (expansion spec) -/
 
